@@ -42,6 +42,18 @@ impl Domain for TsDomain {
                     Err(_) => format!("panic clock={}", self.clock.as_u64()),
                 }
             },
+            "send-unix" => {
+                // send-unix <ms since the UNIX epoch>: the SYSTEM clock reading is injected (before the conversion to the datacake
+                // epoch): readings before 2023-01-01, which the `wall` hook cannot express
+                verif_clock::set_unix_ms(Some(p_u64(t[1])));
+                let r = std::panic::catch_unwind(std::panic::AssertUnwindSafe(|| self.clock.send()));
+                verif_clock::set_unix_ms(None);
+                match r {
+                    Ok(Ok(ts)) => format!("ok {} clock={}", ts.as_u64(), self.clock.as_u64()),
+                    Ok(Err(e)) => format!("{} clock={}", err_name(&e), self.clock.as_u64()),
+                    Err(_) => format!("panic clock={}", self.clock.as_u64()),
+                }
+            },
             "recv" => {
                 verif_clock::set_wall_ms(Some(p_u64(t[1])));
                 let msg = HLCTimestamp::from_u64(p_u64(t[2]));
